@@ -76,13 +76,6 @@ impl World {
     pub fn tip_number(&self) -> Option<u64> {
         self.chain.last().map(|b| b.number)
     }
-    pub fn index_of_number(&self, n: u64) -> Option<usize> {
-        if n < self.first_no {
-            return None;
-        }
-        let i = (n - self.first_no) as usize;
-        (i < self.chain.len()).then_some(i)
-    }
     /// append `n` blocks; contents derive from `seed`
     pub fn extend(&mut self, n: usize, seed: u64) {
         for i in 0..n {
